@@ -14,6 +14,8 @@ CONSTANT MaxDup = 1
 CONSTANT TimedAbandon = TRUE
 CONSTANT Clients <- COs
 CONSTANT ContKeepsLow = FALSE
+CONSTANT RecentCutAtUnused = TRUE
+CONSTANT Mut = {}
 CONSTANT MaxSteps = 0
 CONSTANT RecordHist = FALSE
 SPECIFICATION Spec
